@@ -14,15 +14,17 @@ deriving Repr, Inhabited
 
 namespace Sexp
 
+def flushTok (cur : List Char) (acc : List String) : List String :=
+  if cur.isEmpty then acc else String.ofList cur.reverse :: acc
+
 def tokenize (s : String) : List String :=
   let rec go (cs : List Char) (cur : List Char) (acc : List String) : List String :=
-    let flush := if cur.isEmpty then acc else String.ofList cur.reverse :: acc
     match cs with
-    | [] => flush.reverse
+    | [] => (flushTok cur acc).reverse
     | c :: rest =>
-      if c = '(' then go rest [] ("(" :: flush)
-      else if c = ')' then go rest [] (")" :: flush)
-      else if c = ' ' || c = '\t' || c = '\n' || c = '\r' then go rest [] flush
+      if c = '(' then go rest [] ("(" :: flushTok cur acc)
+      else if c = ')' then go rest [] (")" :: flushTok cur acc)
+      else if c = ' ' || c = '\t' || c = '\n' || c = '\r' then go rest [] (flushTok cur acc)
       else go rest (c :: cur) acc
   go s.toList [] []
 
